@@ -136,7 +136,10 @@ func (m MemSpec) WantEA(mode int) x86ref.EA {
 		}
 		ea.Coef[n] += sc
 		if m.Base == "" && sc == 1 && (n == 4 || n == 5) {
-			ea.SegSS = true
+			// [EBP*1+d]: assemblers differ on whether this is a base (SS) or
+			// an index (DS); the property speaks of the address, so the
+			// default segment is not compared here
+			ea.SegAny = true
 		}
 	}
 	if m.HasDisp {
@@ -269,7 +272,9 @@ func compareEA(acc *diffAcc, got, want x86ref.EA) {
 	}
 	if regs {
 		acc.flag(got.AddrSize != want.AddrSize)
-		acc.flag(got.SegSS != want.SegSS)
+		if !want.SegAny {
+			acc.flag(got.SegSS != want.SegSS)
+		}
 		acc.eq(uint64(got.Disp), uint64(want.Disp))
 	} else {
 		// absolute address: the offset itself must be the same number
